@@ -27,8 +27,8 @@ def main():
             now = "%s (%s)" % (q.get("result"), clauses) if clauses else str(q.get("result"))
             others = [c for c, v in m.get("checks_quick", {}).items() if c != pid and v.get("result") == "KILLED"]
             if q.get("result") != "KILLED":
-                now += " - killed by %s" % ", ".join(others) if others else " - see meta.json"
-                special.append(key)
+                now += (" - killed by %s" % ", ".join(others)) if others else (" - not pursued, see meta.json" if m.get("not_pursued") else " - see meta.json")
+                special.append(key + (" (killed by %s)" % ", ".join(others) if others else " (not pursued)" if m.get("not_pursued") else ""))
         if m.get("initially_missed_by_quick_check"):
             missed += 1
         rows.append("| %s | %s | %s | %s | %s | %s |" % (key, m.get("round", 1), cell(m.get("summary"), 170), cell(m.get("needs_to_manifest"), 140), now, "yes" if m.get("initially_missed_by_quick_check") else "no"))
